@@ -402,6 +402,17 @@ func checkC07(w *Worker) {
 					viol("stats|database-record-count", fmt.Sprintf("stats says %q database records, the book has %d headings\n%s", st["Database records"], len(book), stOut.Stdout))
 					return
 				}
+				// headings, not distinct names: a recipe defined a second time further down is one more record
+				if len(book) > 0 {
+					dup := files["food.yaml"] + book[0].Name + ":\n  cal: 7\n" + "late/addition:\n  cal: 1\n" + book[0].Name + ":\n  fat: 1\n"
+					cd := appCase{Args: []string{"--no-color", "--today", today, "stats"}, Files: map[string]string{"food.yaml": dup, "log.yaml": files["log.yaml"]}}
+					rd := runApp(cd)
+					std := parseStats(rd.Stdout)
+					if rd.Failed || std["Database records"] != fmt.Sprint(len(book)+3) {
+						viol("stats|database-record-count|repeated-heading", fmt.Sprintf("`%s`: stats says %q database records, the book has %d headings (%q occurs three times)\n%s", cd.shell(), std["Database records"], len(book)+3, book[0].Name, rd.String()))
+						return
+					}
+				}
 				first, last := lg[0].Date, lg[len(lg)-1].Date
 				wantFirst := fmt.Sprintf("%s (%d days ago)", first, dayNumber(today)-dayNumber(first))
 				wantLast := fmt.Sprintf("%s (%d days ago)", last, dayNumber(today)-dayNumber(last))
